@@ -76,6 +76,9 @@ def getattr_(ex, st, base, attr, node=None):
             return
         if k == "specmodule":
             r = eng.specs.lookup(base.val, attr)
+            if r is None and attr in eng.contracts.lemmas:
+                yield st, Const("lemma", eng.contracts.lemmas[attr])
+                return
             if r is None:
                 raise _U(f"spec attr {base.val}.{attr}")
             yield st, eng.wrap_spec_lookup(r)
@@ -116,6 +119,9 @@ def getattr_(ex, st, base, attr, node=None):
 
 # ------------------------------------------------------------------- subscript
 def norm_index(i, n):
+    c = arith.is_conc(i) if not S._has_nth(i) else None
+    if c is not None and c >= 0:
+        return z3.IntVal(c)
     return z3.If(i < 0, i + n, i)
 
 
